@@ -4,11 +4,15 @@ import (
 	"crypto/md5"
 	"encoding/binary"
 	"fmt"
+	"net"
 	"sort"
 
 	"github.com/netflix/rend/handlers/memcached/cluster"
+	"github.com/netflix/rend/verifshim/vnet"
 
+	"verif/fakemc"
 	"verif/rt"
+	"verif/wire"
 )
 
 func init() {
@@ -224,7 +228,73 @@ func runC19(c *rt.Ctx) {
 			c.Sample(map[string]interface{}{"nodes": labels, "ring_points": len(ringPoints(labels)), "probe_hashes": len(probes), "key_share": share})
 		}
 	}
+	// the cluster handler itself (one per client connection, each dialling the node list afresh):
+	// a set through one connection's handler and a get through another's must reach the same node,
+	// whatever order the nodes are listed in
+	if c.Mine(0) {
+		clusterHandlerRouting(c, nkeys/10)
+	}
 	c.Set("max_nodes", maxN)
 	c.Set("all_permutations_up_to", maxPerm)
 	c.Set("key_sample", nkeys)
+}
+
+// clusterHandlerRouting drives cluster.NewHandler over in-memory connections (net.Dial rewritten by
+// the overlay): every node has its own fake backend; every dial gets a fresh ephemeral local
+// address, as a real TCP connection does.
+func clusterHandlerRouting(c *rt.Ctx, nkeys int) {
+	port := 40000
+	for n := 2; n <= 5; n++ {
+		stores := map[string]*fakemc.Store{}
+		var addrs []string
+		for i := 0; i < n; i++ {
+			a := fmt.Sprintf("10.1.%d.%d:11211", n, i+1)
+			addrs = append(addrs, a)
+			stores[a] = fakemc.NewStore(a)
+		}
+		vnet.DialHook = func(network, address string) (net.Conn, error) {
+			st, ok := stores[address]
+			if !ok {
+				return nil, fmt.Errorf("no such node %s", address)
+			}
+			port++
+			conn := fakemc.NewConn(st, address)
+			conn.Local = fmt.Sprintf("10.0.0.9:%d", port)
+			return conn, nil
+		}
+		hA, err := cluster.NewHandler(addrs, "verif")
+		if err != nil {
+			c.Violation("C19 cluster-handler-dial", err.Error(), nil)
+			continue
+		}
+		rev := make([]string, n)
+		for i := range addrs {
+			rev[n-1-i] = addrs[i]
+		}
+		hB, _ := cluster.NewHandler(rev, "verif")
+		hC, _ := cluster.NewHandler(append(append([]string{}, addrs[1:]...), addrs[0]), "verif")
+		vnet.DialHook = nil
+		moved := 0
+		for i := 0; i < nkeys; i++ {
+			k := fmt.Sprintf("ck:%d:%x", i, i*40503)
+			v := fmt.Sprintf("v%d", i)
+			if r := CallHandler(hA, wire.Op{Kind: "set", Key: k, Val: v}); r.Class != "ok" {
+				c.Violation("C19 cluster-handler-set", fmt.Sprintf("set %q: %s", k, r), nil)
+				break
+			}
+			for hi, h := range []cluster.Handler{hA, hB, hC} {
+				r := CallHandler(h, wire.Op{Kind: "get", Key: k})
+				c.Eval(1)
+				if len(r.Hits) != 1 || r.Hits[0].Val != v {
+					moved++
+					if moved == 1 {
+						c.Violation("C19 connection-dependent-routing", fmt.Sprintf("%d nodes: key %q set through one connection's handler is not found through connection %d's handler (%s): the two route it to different nodes", n, k, hi, r),
+							map[string]interface{}{"labels": addrs, "key": k})
+					}
+				}
+			}
+		}
+		c.Distinct(fmt.Sprintf("cluster-handler|%d", n))
+		c.Nontrivial(fmt.Sprintf("cluster-handler|%d", n))
+	}
 }
